@@ -68,10 +68,13 @@ class StyleProperty:
   def to_model(cls, context: StyleParsingContext, xml_element) -> typing.Tuple[model.StyleProperty, typing.Any]:
     '''Extracts the value of the style property from a TTML element and returns a tuple consisting of 
     the matching model style property and the value of the model style property'''
-    return (
-      cls.model_prop,
-      cls.extract(context, xml_element.get(f"{{{cls.ns}}}{cls.local_name}"))
-    )
+    try:
+      value = cls.extract(context, xml_element.get(f"{{{cls.ns}}}{cls.local_name}"))
+    except KeyError as e:
+      # enumerated values are looked up by name
+      raise ValueError(f"Invalid value for {cls.local_name}") from e
+
+    return (cls.model_prop, value)
 
   @classmethod
   def from_model(cls, xml_element, model_value):
